@@ -898,7 +898,8 @@ def judge_roc(sess, scores, a, r, monitor="M-roc"):
         C(set(np.atleast_1d(np.asarray(s.threshold_at_fnr(np.asarray(sup_fnr)), dtype=float)).tolist()) <= tset, "threshold of a supplied FNR is missing from the curve", "roc-has-fnr")
     if sup_fpr is not None:
         C(set(np.atleast_1d(np.asarray(s.threshold_at_fpr(np.asarray(sup_fpr)), dtype=float)).tolist()) <= tset, "threshold of a supplied FPR is missing from the curve", "roc-has-fpr")
-    if sup_t is None and sup_fnr is None and sup_fpr is None and a.get("_count", True):
+    nothing = all(v is None or np.size(v) == 0 for v in (sup_t, sup_fnr, sup_fpr))
+    if nothing and a.get("_count", True):
         want = nbp if nbp is not None else len(s.pos) + len(s.neg)
         C(len(r.thresholds) == want, "curve does not have the requested number of points", "roc-npoints")
     C(np.array_equal(r.tpr, 1.0 - r.fnr) and np.array_equal(r.tnr, 1.0 - r.fpr) and np.array_equal(r.far, r.fpr) and np.array_equal(r.frr, r.fnr)
@@ -1129,6 +1130,44 @@ def judge_ipl(sess, x, y, t, res, monitor="M-ipl"):
             sess.check(monitor, ok, "no solution: result is not the single sample point closest to the target", w(), sig=sig, key="ipl-closest")
 
 
+def judge_ipl_large(sess, x, y, t, res, monitor="M-ipl"):
+    """Vectorised version of the same oracle for big inputs (np.interp is independent of the function under observation)."""
+    x = np.asarray(x, dtype=float)
+    y = np.asarray(y, dtype=float)
+    ts = np.atleast_1d(np.asarray(t, dtype=float))
+    if not sess.check(monitor, isinstance(res, list) and len(res) == len(ts), "one entry per target expected", lambda: {"len_targets": len(ts)}, key="ipl-len"):
+        return
+    scale = max(1.0, float(np.abs(y).max()))
+    dx = np.diff(x)
+    slope = float(np.max(np.abs(np.diff(y))[dx > 0] / dx[dx > 0])) if np.any(dx > 0) else 0.0
+    tol = 1e-9 * scale + 8 * slope * np.spacing(max(1.0, abs(x[0]), abs(x[-1])))
+    eps_x = 4 * np.spacing(max(1.0, abs(x[0]), abs(x[-1])))
+    bad = {}
+    for k, (tv, s_) in enumerate(zip(ts.tolist(), res)):
+        sk = np.asarray(s_, dtype=float).ravel()
+        d = y - tv
+        cross = np.nonzero(d[:-1] * d[1:] < 0)[0]
+        if y.min() <= tv <= y.max():
+            if not (len(sk) >= 1 and np.all(np.diff(sk) > 0)):
+                bad.setdefault("ipl-increasing", (k, tv, len(sk)))
+            elif sk.min() < x[0] - eps_x or sk.max() > x[-1] + eps_x:
+                bad.setdefault("ipl-range", (k, tv, len(sk)))
+            elif np.max(np.abs(np.interp(sk, x, y) - tv)) > tol:
+                bad.setdefault("ipl-solves", (k, tv, float(np.max(np.abs(np.interp(sk, x, y) - tv)))))
+            if len(cross) and len(sk):
+                pos = np.searchsorted(sk, x[cross] - eps_x, side="left")
+                ok = (pos < len(sk)) & (sk[np.minimum(pos, len(sk) - 1)] <= x[cross + 1] + eps_x)
+                if not np.all(ok):
+                    bad.setdefault("ipl-complete", (k, tv, int(cross[np.argmin(ok)])))
+        else:
+            best = np.min(np.abs(y - tv))
+            if not (len(sk) == 1 and np.any((x == sk[0]) & (np.abs(y - tv) == best))):
+                bad.setdefault("ipl-closest", (k, tv, len(sk)))
+    sig = ("large", "n%d" % len(x), "t%d" % len(ts))
+    for key in ("ipl-increasing", "ipl-range", "ipl-solves", "ipl-complete", "ipl-closest"):
+        sess.check(monitor, key not in bad, "large curve: " + key, lambda key=key: {"n": len(x), "nb_targets": len(ts), "target_index_value_info": bad.get(key)}, sig=sig, key=key)
+
+
 def install_ipl(sess):
     import sys
 
@@ -1137,7 +1176,10 @@ def install_ipl(sess):
     def post(snap, args, kwargs, res):
         a = dict(zip(["x", "y", "t"], args))
         a.update(kwargs)
-        judge_ipl(sess, a["x"], a["y"], a["t"], res)
+        if np.size(a["x"]) * max(np.size(a["t"]), 1) > 200_000 and np.ndim(a["t"]) == 1 and np.all(np.diff(np.asarray(a["x"], dtype=float)) > 0):
+            judge_ipl_large(sess, a["x"], a["y"], a["t"], res)
+        else:
+            judge_ipl(sess, a["x"], a["y"], a["t"], res)
 
     sess.wrap(U, "invert_pl_function", "M-ipl", post)
 
@@ -1159,6 +1201,14 @@ def _binary_in_scope(m):
 
 def _cells(m, cells):
     return sum(m[..., r, c] for r, c in cells)
+
+
+def _rtol_of(m):
+    """Relative accuracy that can be asked of arithmetic done in the matrix's own floating-point type."""
+    m = np.asarray(m)
+    if m.dtype.kind == "f" and m.dtype.itemsize < 8:
+        return 16 * float(np.finfo(m.dtype).eps)
+    return 1e-12
 
 
 def install_met(sess):
@@ -1191,8 +1241,9 @@ def install_met(sess):
             ok = ~isn & (den != 0)
             with np.errstate(all="ignore"):
                 exp = num[ok] / den[ok]
-            sess.check("M-met", bool(np.all(np.abs(val[ok] - exp) <= 1e-12 * np.maximum(1.0, np.abs(exp)))), "rate differs from numerator/denominator of its definition", w, sig=sig, key="met-value")
-            sess.check("M-met", bool(np.all((val[ok] >= 0) & (val[ok] <= 1))), "rate outside [0,1]", w, sig=sig, key="met-range")
+            rt = _rtol_of(m)
+            sess.check("M-met", bool(np.all(np.abs(val[ok] - exp) <= rt * np.maximum(1.0, np.abs(exp)))), "rate differs from numerator/denominator of its definition", w, sig=sig, key="met-value")
+            sess.check("M-met", bool(np.all((val[ok] >= 0) & (val[ok] <= 1 + (rt if rt > 1e-12 else 0)))), "rate outside [0,1]", w, sig=sig, key="met-range")
 
         return post
 
@@ -1205,7 +1256,7 @@ def install_met(sess):
                 sess.skip("M-met", "matrix out of scope")
                 return
             exp = _cells(m, cells)
-            sess.check("M-met", np.shape(res) == m.shape[:-2] and np.array_equal(np.asarray(res), exp), "count differs from the sum of its cells",
+            sess.check("M-met", np.shape(res) == m.shape[:-2] and bool(np.allclose(np.asarray(res), exp, rtol=_rtol_of(m), atol=0, equal_nan=True)), "count differs from the sum of its cells",
                        lambda: {"metric": name, "matrix": m, "result": np.asarray(res)}, sig=(name, m.dtype.kind), key="met-count")
 
         return post
@@ -1234,7 +1285,8 @@ def install_met(sess):
             with np.errstate(all="ignore"):
                 p = np.where(den != 0, num / np.where(den == 0, 1, den), np.nan)
                 hw = z * np.sqrt(p * (1 - p) / np.where(den == 0, 1, den))
-            ok = np.allclose(ci[..., 0], p - hw, rtol=1e-9, atol=1e-12, equal_nan=True) and np.allclose(ci[..., 1], p + hw, rtol=1e-9, atol=1e-12, equal_nan=True)
+            rt = max(_rtol_of(m) ** 0.5 if _rtol_of(m) > 1e-12 else 0.0, 1e-9)  # sqrt(p(1-p)/n) takes the square root of the cells' accuracy
+            ok = np.allclose(ci[..., 0], p - hw, rtol=rt, atol=max(1e-12, rt), equal_nan=True) and np.allclose(ci[..., 1], p + hw, rtol=rt, atol=max(1e-12, rt), equal_nan=True)
             sess.check("M-met", ok, "interval is not rate -/+ z(alpha/2)*sqrt(p(1-p)/n)", w, sig=sig, key="met-ci-value")
             sess.check("M-met", np.array_equal(np.isnan(ci[..., 0]), den == 0) and np.array_equal(np.isnan(ci[..., 1]), den == 0), "interval is NaN not exactly where the rate is", w, sig=sig, key="met-ci-nan")
 
@@ -1252,7 +1304,7 @@ def install_met(sess):
         m = np.asarray(args[0] if args else kwargs["matrix"])
         if m.ndim < 2 or m.dtype.kind not in "fiu":
             return
-        sess.check("M-met", np.shape(res) == m.shape[:-2] and bool(np.allclose(np.asarray(res), m.sum(axis=-1).sum(axis=-1), rtol=1e-12, atol=0)), "pop is not the sum of all cells", lambda: {"matrix": m}, sig=("pop",), key="met-count")
+        sess.check("M-met", np.shape(res) == m.shape[:-2] and bool(np.allclose(np.asarray(res), m.sum(axis=-1).sum(axis=-1), rtol=_rtol_of(m), atol=0)), "pop is not the sum of all cells", lambda: {"matrix": m}, sig=("pop",), key="met-count")
 
     sess.wrap(M, "pop", "M-met", pop_post)
 
@@ -1269,7 +1321,9 @@ def install_met(sess):
             p = np.where(nobs != 0, count / np.where(nobs == 0, 1, nobs), np.nan)
             hw = z * np.sqrt(p * (1 - p) / np.where(nobs == 0, 1, nobs))
         ci = np.asarray(res, dtype=float)
-        ok = ci.shape == count.shape + (2,) and np.allclose(ci[..., 0], p - hw, rtol=1e-9, atol=1e-12, equal_nan=True) and np.allclose(ci[..., 1], p + hw, rtol=1e-9, atol=1e-12, equal_nan=True)
+        src = np.asarray(a["count"])
+        rt = max(_rtol_of(src) ** 0.5 if _rtol_of(src) > 1e-12 else 0.0, 1e-9)
+        ok = ci.shape == count.shape + (2,) and np.allclose(ci[..., 0], p - hw, rtol=rt, atol=max(1e-12, rt), equal_nan=True) and np.allclose(ci[..., 1], p + hw, rtol=rt, atol=max(1e-12, rt), equal_nan=True)
         sess.check("M-met", ok, "binomial_ci is not the normal-approximation interval", lambda: {"count": count, "nobs": nobs, "alpha": alpha, "result": ci}, sig=("binomial_ci",), key="met-binomial")
 
     sess.wrap(U, "binomial_ci", "M-met", bin_post)
